@@ -129,7 +129,14 @@ def substitutions(seed: int) -> list[Subst]:
     name_uni = {f"n{i}": f"\u540d\u524d{i}" for i in range(30)}
     name_uni.update({"w": "w w", "x": "\u1e8b", "y": "\"q\"\\", "z": "\u00e9~;", "n0": "~41;", "n1": "\x7f\x01"})
     other_uni = {"l": "l\u00e9x \"quoted\"\n", "1": "", "b1": "b\u00f61", "g": "g:~1;", "en": "en-GB", "l2": "\U0001F600"}
-    subs = [Subst(), Subst(pfx_real, name_real, {}, "realistic"), Subst(pfx_uni, name_uni, other_uni, "unicode")]
+    # string CONTENT that small universes never contain by chance: '/' and several '#' in one prefix, a bare trailing '#', a BOM, strings longer than
+    # 127 and 16383 bytes (varint width of the length prefix), NUL, characters outside the BMP, numeric-looking forms, odd language tags
+    pfx_odd = {"a/": "http://ex.org/a/b#c#", "b#": "http://ex.org/x/#", "b/": "\ufeffhttp://bom.example/" + "p" * 150 + "/", "c/": "c:/", "d#": "//#", "": ""}
+    name_odd = {f"n{i}": f"{i:05d}" for i in range(30)}
+    name_odd.update({"w": "\x00nul", "x": "x" * 300, "y": "\U0001d518\U0001d52b\U0001d526", "z": "z" * 17000, "n0": "1e3", "n1": "true", "n2": " leading space"})
+    other_odd = {"l": "007", "1": "1e3", "l2": "L" * 20000, "b1": "b" * 200, "g": "\u00fc", "en": "EN-gb-x-private", "s": " "}
+    subs = [Subst(), Subst(pfx_real, name_real, {}, "realistic"), Subst(pfx_uni, name_uni, other_uni, "unicode"),
+            Subst(pfx_odd, name_odd, other_odd, "odd-content")]
     rnd.shuffle(subs)
     return subs
 
